@@ -1,11 +1,11 @@
 #!/bin/sh
-# tools/try_control.sh <patch.diff> [tier]  -- behaviour-preserving change: apply to a scratch copy of /repo and run ALL checks; every one must stay silent
+# tools/try_control.sh <patch.diff> [tier]  (CHECKS="C10 C16" restricts the checks run)  -- behaviour-preserving change: apply to a scratch copy of /repo and run ALL checks; every one must stay silent
 patch=$1; tier=${2:-quick}
 d=/var/tmp/ctrltry_$$
 rsync -a --exclude .git --exclude '*.ipynb' --exclude __pycache__ /repo/ $d/ || exit 2
 (cd $d && patch -p1 -s < "$patch") || { rm -rf $d; echo "patch does not apply"; exit 2; }
 bad=0
-for id in C01 C02 C03 C04 C05 C06 C07 C08 C09 C10 C11 C12 C13 C14 C15 C16 C17 C18 C19 C20; do
+for id in ${CHECKS:-C01 C02 C03 C04 C05 C06 C07 C08 C09 C10 C11 C12 C13 C14 C15 C16 C17 C18 C19 C20}; do
   VERIF_REPO=$d VERIF_OUT=$d/_out timeout 1500 /verif/check $id $tier > $d.$id.log 2>&1
   rc=$?
   if [ $rc -ne 0 ]; then bad=$((bad+1)); echo "  $id rc=$rc $(grep -m1 '^C[0-9][0-9] ' $d.$id.log | cut -c1-120)"; grep -m2 '^   \[\|ERROR' $d.$id.log | cut -c1-300; fi
